@@ -60,8 +60,11 @@ PROP_FLAVOURS = {
     "C07": {"quick": ["asm"], "thorough": ["asm", "intr", "pure", "plain"]},
     "C09": {"quick": ["asm"], "thorough": ["asm", "plain"]},
     "C10": {"quick": ["asm"], "thorough": ["asm", "plain"]},
+    "C11": {"quick": ["asm"], "thorough": ["asm", "plain"]},
     "C14": {"quick": ["asm"], "thorough": ["asm", "plain"]},
     "C15": {"quick": ["asm"], "thorough": ["asm", "plain"]},
+    "C16": {"quick": ["asm"], "thorough": ["asm", "plain"]},
+    "C17": {"quick": ["asm"], "thorough": ["asm", "plain"]},
 }
 
 ALL_PROPS = ["C%02d" % i for i in range(1, 19)]
